@@ -17,6 +17,12 @@ MAT_ASSUME = [
     "model (coq/Model/Matrix.v) is hand-written; tied to /repo by the exact-arithmetic correspondence of this run",
     "scalars are elements of a field (exact rationals in the correspondence); floating-point rounding is outside the property",
 ]
+def pre_swizzle(root, sh):
+    """regenerate coq/Exec/SwizzleTable_gen.v from the current build of /repo (before the proof step)"""
+    rc, out = sh("python3 gen_swizzle_table.py", cwd=root)
+    return [] if rc == 0 else [{"at": "swizzle-table", "found": False, "what": "could not regenerate the swizzle table: " + out[-300:],
+                                "replay": {"kind": "generator", "log": out[-1000:]}}]
+
 PROPS = {
     "C01": P(1, assumptions=MAT_ASSUME, trusted=["rustc monomorphisation of the generic code at Xq"]),
     "C02": P(2, runmod="RunC01", assumptions=MAT_ASSUME + ["`==` on the scalar type decides equality (EqbSpec; true of Qc by proof, of f32/f64 except NaN)"],
@@ -49,6 +55,13 @@ PROPS = {
               "abs_diff_ne!: the scalar's abs_diff_eq with default epsilon, specified by ApproxSpecR (|a-b| <= eps); for Xq eps = 2^-52",
               "planar with fovy = 0 divides by zero in exact arithmetic (IEEE infinity in floats): float-only limit case, not claimed"],
              trusted=["rustc monomorphisation of the generic code at Xq"]),
+    "C16": P(16, pre=pre_swizzle,
+             assumptions=["model (coq/Model/Layout.v) is hand-written; the swizzle table (coq/Exec/SwizzleTable_gen.v) is REGENERATED from the build output of /repo's build.rs on every run and the finite theorems are re-checked against it",
+              "that transmute between repr(C) structs and arrays/tuples is defined behaviour is a property of rustc's layout; the model shows that IF fields are laid out in declaration order without padding the views agree, and the harness observes that they do",
+              "views, indices, conversions and all 550 swizzle accessors are observed natively on i32, f64 and a non-numeric Copy enum (exhaustive over types x views x index values)"],
+             rule="exhaustive: every view x every type x every index (including len, len+1, usize::MAX) and all 550 swizzle accessors on values with pairwise distinct components",
+             coverage_extra={"exhaustive": True},
+             trusted=["rustc layout of repr(C) structs", "the mint crate"]),
     "C17": P(17, assumptions=["model (coq/Model/Program.v) is hand-written; tied to /repo by the correspondence of this run (random register programs run by a Rust interpreter whose every instruction is executed in the chosen spelling)",
               "that the four by-value/by-reference impls share one $body is a fact about macro expansion: the model has one body for them, the harness observes all four",
               "scalar-on-the-left impls exist per primitive type: exercised natively for all twelve types (no overflow, no division by zero)"],
